@@ -3,11 +3,11 @@ package main
 // Contract-expression builtins (spec mode).
 
 import (
-	"os"
 	"fmt"
 	"go/ast"
 	"go/token"
 	"go/types"
+	"os"
 	"strconv"
 	"strings"
 )
